@@ -37,4 +37,33 @@ structure MethodInfo where
   cond : Bool
   deriving Inhabited, Repr
 
+inductive FlagId where
+  | wod | coc | fate | dc | stmts | ndice | bitwise
+  deriving DecidableEq, Repr, Inhabited
+
+/-- effects of an action, in execution order -/
+inductive Eff where
+  | emit (op : Nat)
+  | loopBegin | loopEnd
+  | breakCont                       -- BreakPush / ContinuePush guarded by `loopLayer == 0 → addErr`
+  | flagsPush | flagsPop
+  | setFlag (f : FlagId) (v : Bool)
+  | flagsSwitch
+  | addErr
+  | unknown (what : String)         -- something the translator does not understand: the tie is broken
+  deriving Repr, Inhabited
+
+inductive Pred where
+  | none                            -- not a predicate
+  | flag (f : FlagId) (negated : Bool)
+  | const (v : Bool)
+  | customDice
+  | unknown (what : String)
+  deriving Repr, Inhabited
+
+structure Act where
+  effs : List Eff
+  pred : Pred
+  deriving Repr, Inhabited
+
 end DS.Peg
